@@ -760,18 +760,25 @@ pub fn judge(case: &ThrCase, out: &RunOut, prop: Prop) -> R<CaseReport> {
     let mut rep = CaseReport::default();
     let sched = || format!("schedule {:?}", out.trace);
     // C02: ready implies flagged, for every subscriber, in every thread and in the final polls
+    let mut other: Option<String> = None;
     for r in &out.recs {
         if let Kind::Poll { sub, res, prev_pending_woken: Some(false) } = &r.kind {
             // after the join this is also C04's "ends on the final value": a task suspended on that
             // waker would never have polled again
             let props: &[Prop] = if r.main { &[C02, C04] } else { &[C02] };
-            return fail(
-                prop,
-                props,
-                format!("subscriber {sub}: poll returned {:?} although the waker of its previous Pending poll was never woken ({})", res, sched()),
-            );
+            let msg = format!("subscriber {sub}: poll returned {:?} although the waker of its previous Pending poll was never woken ({})", res, sched());
+            if props.contains(&prop) {
+                return Err(Stop::Violation(msg));
+            }
+            // another property's business: remember it, but keep looking for one of ours
+            if other.is_none() {
+                other = Some(msg);
+            }
         }
         rep.checks += 1;
+    }
+    if let Some(msg) = other {
+        return Err(Stop::Tainted(msg));
     }
     // C03: end of stream <=> no owner survived
     for (i, r1, _w1, r2, _w2) in &out.final_polls {
